@@ -16,6 +16,7 @@ import (
 
 	"github.com/aml-org/amf-custom-validator/internal/validator"
 	"github.com/aml-org/amf-custom-validator/pkg"
+	"github.com/aml-org/amf-custom-validator/pkg/events"
 	"github.com/aml-org/amf-custom-validator/pkg/config"
 	"github.com/aml-org/amf-custom-validator/verifh/core"
 )
@@ -62,7 +63,23 @@ func C06Conc(profilePath, dataPath string, rounds int) {
 		}
 		return o
 	}
+	// cold start: the first thing this process does with these inputs is to validate them from 8 goroutines that enter Rego
+	// generation together (steered through the event channel); only then the report alone
+	cold := alignedCalls(events.RegoGenerationStart, 8, func(w int, ch *chan events.Event) (string, error) {
+		return pkg.ValidateWithConfiguration(string(p), string(d), false, ch, clockA, rc)
+	})
 	ref := one()
+	coldDiffs := []string{}
+	for w, o := range cold {
+		if o != ref {
+			coldDiffs = append(coldDiffs, fmt.Sprintf("cold start, goroutine %d: %s", w, firstDiff(ref, o)))
+		}
+		for v := 0; v < w; v++ {
+			if cold[v] != o && len(coldDiffs) < 4 {
+				coldDiffs = append(coldDiffs, fmt.Sprintf("cold start, goroutines %d and %d differ: %s", v, w, firstDiff(cold[v], o)))
+			}
+		}
+	}
 	diffs := make([]string, 8)
 	var wg sync.WaitGroup
 	for w := 0; w < 8; w++ {
@@ -82,7 +99,7 @@ func C06Conc(profilePath, dataPath string, rounds int) {
 		}(w)
 	}
 	wg.Wait()
-	out := []string{}
+	out := coldDiffs
 	for _, x := range diffs {
 		if x != "" {
 			out = append(out, x)
@@ -98,7 +115,9 @@ func sha(s string) string {
 }
 
 func c06Profiles(e *core.Env) map[string]string {
-	ps := map[string]string{"pool-levels": PoolProfileLevels, "pool-special": PoolProfileSpecial}
+	ps := map[string]string{"pool-levels": PoolProfileLevels, "pool-special": PoolProfileSpecial,
+		// 40 sibling constraints and 10 alternatives written in descending order
+		"wide-descending": coldProfile(40, "C06")}
 	// several quantified constraints under one propertyConstraints, several properties per map, several prefixes
 	ps["many-quantified"] = `#%Validation Profile 1.0
 profile: Many quantified
@@ -247,7 +266,7 @@ validations:
 
 func C06(e *core.Env) {
 	res := e.Res
-	res.Rule = "cases = (profile, data): generated Rego and report (fixed clock) computed by N fresh processes (quick 10, thorough 40), by repeated calls in one process, and by 8 goroutines at once; all bytes must be identical; profiles: several quantified constraints and properties per propertyConstraints map, several prefixes incl. a redeclared built-in one, deep nesting, alternations nested in alternations followed by further steps, 48 validations, repository fixtures; a profile relying on a built-in prefix before / after a profile that rebinds it, against the fresh-process report; a history of 13 validations cycling through 5 report configurations (sharing / differing in each field) against the fresh-process report of each configuration; four constant clocks (incl. the zero time.Time and a zoned instant), each used twice 1.1 s apart; data: failing documents with lexical source maps, with TWO source-information nodes, with several results per level; " +
+	res.Rule = "cases = (profile, data): generated Rego and report (fixed clock) computed by N fresh processes (quick 10, thorough 40), by repeated calls in one process, and by 8 goroutines at once (a child process whose FIRST use of the inputs is 8 goroutines entering Rego generation together, then repeated concurrent calls); all bytes must be identical; profiles: several quantified constraints and properties per propertyConstraints map, several prefixes incl. a redeclared built-in one, deep nesting, alternations nested in alternations followed by further steps, 48 validations, repository fixtures; a profile relying on a built-in prefix before / after a profile that rebinds it, against the fresh-process report; a history of 13 validations cycling through 5 report configurations (sharing / differing in each field) against the fresh-process report of each configuration; four constant clocks (incl. the zero time.Time and a zoned instant), each used twice 1.1 s apart; data: failing documents with lexical source maps, with TWO source-information nodes, with several results per level; " +
 		"non-trivial = the report has results; distinct by (profile, data, mode)"
 	self, _ := os.Executable()
 	g := RandomEdgeGraph(e.Rand, 5, []string{"a", "b", "c"}, 0.4)
